@@ -483,6 +483,7 @@ class ServerProc(object):
         if kind not in KINDS:
             raise ValueError(kind)
         self.kind, self.auth, self.unix = kind, bool(auth), unix
+        self.auth_kind = auth
         self.cmd_watchdog = cmd_watchdog
         self.scratch = tempfile.mkdtemp(prefix="rv_rn_", dir="/tmp")
         self.path = os.path.join(self.scratch, "s.sock") if unix else None
